@@ -625,9 +625,9 @@ Proof.
     { assert (Hin : In (px0, o) groups) by (rewrite Eg; now left). apply paint_groups_In in Hin. tauto. }
     rewrite Hpx0. destruct (paint_same_shape sg' t (all_pixels groups) 0) as [ShA ShB].
     apply undo_first_loop; [exact Hf|eapply same_shape_trans; [apply paint_same_shape|exact Sh']| |].
-    + intros i Hin. rewrite label_at_paint by assumption. destruct (HP1 i Hin) as [Hi _].
+    + intros i Hin. fold groups in Hin. rewrite label_at_paint by assumption. destruct (HP1 i Hin) as [Hi _].
       destruct Sh' as [_ Sh']. rewrite Sh'. apply memz_In in Hin. apply Nat.ltb_lt in Hi. now rewrite Z.eqb_refl, Hin, Hi.
-    + intros t' i Ht' Hno. rewrite label_at_paint by assumption.
+    + intros t' i Ht' Hno. fold groups in Hno. rewrite label_at_paint by assumption.
       destruct ((t' =? t) && memz (Z.of_nat i) (all_pixels groups) && (i <? length (frame_of sg' t))%nat) eqn:Ec.
       * exfalso. apply Hno. apply andb_true_iff in Ec. destruct Ec as [Ec _]. apply andb_true_iff in Ec. destruct Ec as [E1 E2].
         split; [now apply Z.eqb_eq|now apply memz_In].
